@@ -4,6 +4,7 @@ package main
 
 import (
 	"fmt"
+	"sort"
 	"go/ast"
 	"go/token"
 	"go/types"
@@ -182,12 +183,13 @@ func (fx *FuncExec) evalCall(st *State, call *ast.CallExpr) []Term {
 }
 
 func (fx *FuncExec) allocMonotone(st *State, pre map[string]string) {
-	for c, o := range pre {
+	for _, c := range sortedStrKeys(pre) {
+		o := pre[c]
 		srt := strings.TrimPrefix(c, "AL_")
 		if st.vars[c] == o {
 			continue
 		}
-		fx.ghFacts = append(fx.ghFacts, ghFact{c, fmt.Sprintf("(forall ((r %s)) (! (=> (select %s r) (select %s r)) :pattern ((select %s r))))", srt, o, st.vars[c], st.vars[c])})
+		fx.ghFacts = append(fx.ghFacts, ghFact{c, fmt.Sprintf("(forall ((r %s)) (! (=> (select %s r) (select %s r)) :pattern ((select %s r))))", srt, o, st.vars[c], st.vars[c]), st.vars[c]})
 	}
 }
 
@@ -533,7 +535,7 @@ func (fx *FuncExec) evalBuiltin(st *State, call *ast.CallExpr, name string) []Te
 			if fx.structValInfo(u.Elem()) != nil {
 				fx.unsupported(call.Pos(), "make of slice of struct values")
 			}
-			fx.setHq(st, comp, store(fx.H(st, comp), ref, "((as const (Array Int "+es+")) "+fx.reg.Zero(es)+")"))
+			fx.setHq(st, comp, store(fx.H(st, comp), ref, fx.reg.ZeroArr("Int", es)))
 			return []Term{{S: "(mk_slice " + ref + " 0 " + n.S + ")", Sort: "Slice", T: t, Fresh: true}}
 		}
 		fx.unsupported(call.Pos(), "make of %s", t)
@@ -609,4 +611,13 @@ func (fx *FuncExec) evalBuiltin(st *State, call *ast.CallExpr, name string) []Te
 	}
 	fx.unsupported(call.Pos(), "builtin %s", name)
 	return nil
+}
+
+func sortedStrKeys(m map[string]string) []string {
+	ks := make([]string, 0, len(m))
+	for k := range m {
+		ks = append(ks, k)
+	}
+	sort.Strings(ks)
+	return ks
 }
